@@ -746,6 +746,30 @@ func (m *Machine) harnessIntrinsic(name string, args []Value) (Value, bool) {
 		}
 		return "?"
 	}
+	if m.Forced != nil {
+		switch name {
+		case "vNondetInt", "vNondetBool", "vNondetByte", "vNondetString", "vNondetStringN", "vNondetValue", "vChoice":
+			if m.forcedPos >= len(m.Forced) {
+				m.end("unsupported", "engine replay: more nondet calls than recorded")
+			}
+			r := m.Forced[m.forcedPos]
+			m.forcedPos++
+			var v Value
+			switch name {
+			case "vNondetBool":
+				v = r.Bool
+			case "vNondetString", "vNondetStringN":
+				v = string(r.Str)
+			case "vNondetValue":
+				m.nondets = append(m.nondets, NondetRec{r.Tag, r.Kind, r.Int})
+				return Iface{T: types.Typ[types.Int], V: r.Int}, true
+			default:
+				v = r.Int
+			}
+			m.nondets = append(m.nondets, NondetRec{r.Tag, r.Kind, v})
+			return v, true
+		}
+	}
 	switch name {
 	case "vNondetInt":
 		lo, hi := m.asInt(args[1]), m.asInt(args[2])
@@ -859,6 +883,7 @@ func (m *Machine) harnessIntrinsic(name string, args []Value) (Value, bool) {
 	case "vFootprintReset":
 		m.trackGlobals = true
 		m.gStores, m.gLoads = nil, nil
+		m.markOwned()
 		return nil, true
 	case "vGlobalStores":
 		out := []Value{}
@@ -872,6 +897,23 @@ func (m *Machine) harnessIntrinsic(name string, args []Value) (Value, bool) {
 			out = append(out, g)
 		}
 		return out, true
+	case "vNFAEquiv":
+		ints := func(v Value) []int {
+			var out []int
+			for _, x := range v.([]Value) {
+				out = append(out, int(x.(int64)))
+			}
+			return out
+		}
+		eq, k, decided := m.nfaEquiv(int(m.asInt(args[0])), ints(args[1]), ints(args[2]), int(m.asInt(args[3])), ints(args[4]), ints(args[5]), int(m.asInt(args[6])))
+		if !decided {
+			m.unsupported("k-induction for automaton equivalence did not close (k=24) or solver unknown")
+		}
+		if k > m.Stats.MaxInductionK {
+			m.Stats.MaxInductionK = k
+		}
+		m.Stats.InductionProofs++
+		return eq, true
 	case "vSymbolic":
 		return true, true
 	case "vConcretize":
